@@ -743,6 +743,12 @@ fn twin_tz(r: &mut Rng) {
         let d2 = h2 + 44;                                                      // v2 data: 3 x 8 time bytes, 3 index bytes, 2 x 6 type bytes, 8 chars, 2 isstd, 2 isut
         set("transition type index out of bounds", d2 + 24, 2, false); set("isdst = 2", d2 + 27 + 4, 2, false); set("abbreviation index out of bounds", d2 + 27 + 5, 8, false);
         set("abbreviation with an invalid character", d2 + 39, b'!', false); set("(isstd, isut) = (0, 1)", d2 + 47 + 2, 1, false);
+        // indicator counts that disagree with the type count, with the data block sized to match the (wrong) counts
+        { let mut m = base.clone(); m[h2 + 20 + 7] = 1; m.remove(d2 + 47); variants.push(("isstd count 1 of 2 types (v2 block, data trimmed to match)".into(), m, false)); }
+        { let mut m = base.clone(); m[h2 + 20 + 3] = 1; m.remove(d2 + 49); variants.push(("isut count 1 of 2 types (v2 block, data trimmed to match)".into(), m, false)); }
+        { let mut m = base.clone(); m[h2 + 20 + 7] = 3; m.insert(d2 + 47, 0); variants.push(("isstd count 3 of 2 types (v2 block, data padded to match)".into(), m, false)); }
+        { let mut m = base.clone(); m[20 + 7] = 1; m.remove(44 + 30); variants.push(("isstd count 1 of 2 types (v1 block, data trimmed to match)".into(), m, false)); }
+        { let mut m = base.clone(); m[20 + 3] = 1; m.remove(44 + 32); variants.push(("isut count 1 of 2 types (v1 block, data trimmed to match)".into(), m, false)); }
         { let mut m = base.clone(); m[d2 + 7] = 0xA0; m[d2 + 6] = 0xBB; m[d2 + 5] = 0x0D; variants.push(("transitions not increasing".into(), m, false)); }
         { let mut m = base.clone(); m.remove(foot); variants.push(("footer without the leading newline".into(), m, false)); }
         { let mut m = base.clone(); m.pop(); variants.push(("footer without the trailing newline".into(), m, false)); }
